@@ -859,6 +859,16 @@ def compare_calls(chk, calls, origin):
         chk.feature(f"mutation:loc={f['ctx']['loc']}")
         if impl != model:
             chk.disagreement(mech, {"op": opname, "a": a, "origin": origin}, model, impl)
+        if f["name"] == "change_type" and f["result"] == "SUCCESS":
+            # replay: "changing the type" negates only if no value of the new type is valid for the old ones - every integer is
+            # a number and an integral float (10.0) is a valid integer, so `number` never replaces a type set holding `integer`
+            t0 = f["before"].get("type")
+            old = set(t0 if isinstance(t0, list) else [t0]) if t0 is not None else set()
+            t1 = f["after"].get("type")
+            if "integer" in old and t1 == "number":
+                chk.violation("C02:change_type:integer-among-the-types-replaced-by-number",
+                              f"change_type turns {f['before']!r} into type number: integral floats satisfy the original schema "
+                              f"and would be sent as negative data", {"kind": "mutation", "request": a, "after": f["after"]})
         if f["result"] == "KeyError":
             chk.violation("C02:negate_constraints:KeyError-exclusive-bound-without-its-dependency",
                           "negate_constraints raises KeyError on exclusiveMinimum/exclusiveMaximum without minimum/maximum",
@@ -1126,11 +1136,17 @@ def negatable_designed(chk):
         op = schemathesis.openapi.from_dict(raw)[template]["POST"]
         for modes in ([GenerationMode.NEGATIVE], [GenerationMode.POSITIVE, GenerationMode.NEGATIVE]):
             cfg = GenerationConfig(modes=list(modes))
-            cases, stop = draw_real(op.as_strategy(generation_mode=GenerationMode.NEGATIVE, generation_config=cfg), 8, chk.seed + 31, 20)
+            cases, stop = draw_real(op.as_strategy(generation_mode=GenerationMode.NEGATIVE, generation_config=cfg), 25, chk.seed + 31, 20)
             key = {"operation": d, "modes": [m.value for m in modes], "designed": tag}
             chk.case("negatable:designed", key=key, nontrivial=True, sample={**key, "cases": len(cases), "stopped": stop})
             chk.feature(f"negatable:designed:{tag}:{'cases' if cases else stop}")
             if stop == "error:time-limit":
+                continue
+            if cases and stop == "skip":
+                chk.violation("C02:negative:operation-with-a-negatable-input-reported-as-impossible-to-negate",
+                              f"{tag}: after {len(cases)} negative cases the run ends with 'Impossible to generate negative test "
+                              f"cases' although the only input of the operation can certainly be violated",
+                              {"kind": "designed", **key})
                 continue
             if not cases:
                 chk.violation("C02:negative:operation-with-a-negatable-input-gets-no-negative-case",
